@@ -111,6 +111,22 @@ fn main() {
         if v["case"]["kind"] == "history" {
             machinery_failure(run.prop, "defragmenter histories are replayed with ./check C07 --replay");
         }
+        if v["case"]["kind"] == "huge-suffix" {
+            let name = v["case"]["func"].as_str().unwrap_or("");
+            let t = all.iter().find(|t| t.name == name).unwrap_or_else(|| machinery_failure(run.prop, "unknown function in replay"));
+            let b = unhex(v["case"]["input"].as_str().unwrap_or(""));
+            let big = vcommon::iso::big_zero((1usize << 32) + 4096).unwrap_or_else(|| machinery_failure(run.prop, "cannot map 4 GiB"));
+            big[..b.len()].copy_from_slice(&b);
+            let end = (1usize << 32) + v["case"]["extra"].as_u64().unwrap_or(4096) as usize;
+            let (g, g2) = ((t.run)(&b), (t.run)(&big[..end]));
+            if g == g2 {
+                println!("replay: property holds on this case");
+                std::process::exit(0);
+            }
+            println!("replay: followed by 4 GiB of zero bytes the result changes from {:.200} to {:.200}", format!("{:?}", g), format!("{:?}", g2));
+            println!("VIOLATION property={} replay={}", run.prop, run.replay.clone().unwrap());
+            std::process::exit(1);
+        }
         std::process::exit(replay_parse(&run, &all, &v["case"], &|t, b, s| {
             let g = (t.run)(b);
             locality(t, b, &g, &Ref::Unspec(""), s)
@@ -191,12 +207,67 @@ fn main() {
         sink.merge(struct_sweep(&run, &[&DTLS_HANDSHAKE], &wrapped(&cat::dtls_handshake_messages(), st), 0, &sfx, 8, &locality));
         sink.merge(struct_sweep(&run, &[&DTLS_RECORD, &DTLS_RECORD_HEADER], &wrapped(&cat::dtls_records(), st), 0, &sfx, 8, &locality));
         sink.merge(struct_sweep(&run, &[&DH_PARAMS], &wrapped(&cat::dh_params(false), st), 0, &sfx, 8, &locality));
+        sink.merge(struct_sweep(&run, &[&DH_PARAMS], &cat::dh_relations(), 0, &sfx, 8, &locality));
         sink.merge(struct_sweep(&run, &[&EC_PARAMETERS, &ECDH_PARAMS], &wrapped(&cat::ecdh_params(), 1), 0, &sfx, 8, &locality));
         sink.merge(struct_sweep(&run, &[&EC_POINT], &wrapped(&cat::ec_points(), 7), 0, &sfx, 8, &locality));
         sink.merge(struct_sweep(&run, &[&SIGNED, &SIGNED_OLD], &wrapped(&cat::signatures(true, false), 1), 0, &sfx, 8, &locality));
         sink.merge(struct_sweep(&run, &[&SIGNED, &SIGNED_OLD], &wrapped(&cat::signatures(false, false), 1), 0, &sfx, 8, &locality));
         sink.merge(struct_sweep(&run, &[&SCT], &wrapped(&cat::scts(false), 1), 0, &sfx, 8, &locality));
         sink.merge(struct_sweep(&run, &[&SCT_LIST], &wrapped(&cat::sct_lists(false), 1), 0, &sfx, 8, &locality));
+    }
+    // the scale rung 2^32: an accepted encoding followed by 4 GiB of data (one lazily zeroed buffer; only its head is
+    // ever touched): a length or an availability computed in 32 bits shows only here
+    {
+        let total: usize = (1usize << 32) + 4096;
+        if let Some(big) = vcommon::iso::big_zero(total) {
+            let fams: Vec<(Vec<&Target>, Vec<W>)> = vec![
+                (vec![&PLAINTEXT, &ENCRYPTED, &RAW_RECORD, &RECORD_HEADER], cat::tls_records(2, false)),
+                (vec![&MSG_HANDSHAKE], cat::handshake_messages(false)),
+                (ext_targets.clone(), exts.iter().filter(|w| w.buf.len() < 300).cloned().collect()),
+                (vec![&DTLS_HANDSHAKE], cat::dtls_handshake_messages()),
+                (vec![&DTLS_RECORD, &DTLS_RECORD_HEADER], cat::dtls_records()),
+                (vec![&DH_PARAMS], cat::dh_params(false)),
+                (vec![&EC_PARAMETERS, &ECDH_PARAMS], cat::ecdh_params()),
+                (vec![&EC_POINT], cat::ec_points().into_iter().step_by(40).collect()),
+                (vec![&SIGNED, &SIGNED_OLD], cat::signatures(true, false)),
+                (vec![&SCT], cat::scts(false)),
+                (vec![&SCT_LIST], cat::sct_lists(false)),
+            ];
+            let mut n4 = 0u64;
+            for (ts, items) in &fams {
+                for w in items.iter().filter(|w| w.buf.len() <= 4000).step_by(run.tier.pick(3, 1)) {
+                    let l = w.buf.len();
+                    big[..l].copy_from_slice(&w.buf);
+                    for t in ts {
+                        let g = (t.run)(&w.buf);
+                        if let Got::Ok(..) = g {
+                            // total sizes 2^32 + k: what is left after a header is then a small number modulo 2^32
+                            for k in [0usize, 1, 4, 5, 6, 9, 13, 14, 17, 4096] {
+                                let end = (1usize << 32) + k;
+                                if end < l {
+                                    continue;
+                                }
+                                let g2 = (t.run)(&big[..end]);
+                                n4 += 1;
+                                sink.evals += 1;
+                                if g2 != g {
+                                    sink.violation(
+                                        format!("{} {} 4GiB", t.name, hexs(&w.buf)),
+                                        format!("{}({}): locality: inside a buffer of 2^32 + {} bytes (zero bytes follow) the result changes from {:.200} to {:.200}", t.name, hexshort(&w.buf), k, format!("{:?}", g), format!("{:?}", g2)),
+                                        json!({"kind":"huge-suffix","func":t.name,"input":hexs(&w.buf),"extra":k}),
+                                    );
+                                    break;
+                                }
+                            }
+                        }
+                    }
+                    big[..l].fill(0);
+                }
+            }
+            sink.bump("inputs followed by 4 GiB", n4);
+        } else {
+            sink.bump("4 GiB buffer not available (rung skipped)", 1);
+        }
     }
     LONG_ON_REJECT.store(false, std::sync::atomic::Ordering::Relaxed);
     // every short string over per-family positional alphabets (nested lengths that point past the structure)
